@@ -1,8 +1,8 @@
 CONSTANTS
   NObj = 2
   Ops <- OpsCore
-  Caps <- Caps2
-  Variant <- VPinned
+  Caps <- CapsQ
+  Variant <- VFixed
   DtorMenu <- MenuPlain
   EmitCover = FALSE
 INIT MCInit
@@ -13,5 +13,7 @@ INVARIANT TypeOK
 INVARIANT C01
 INVARIANT C02
 INVARIANT C03
+INVARIANT C04
 INVARIANT C06
 INVARIANT C08
+INVARIANT C14
